@@ -67,6 +67,7 @@ def run(ctx) -> None:
     r07_6(ctx)
     r07_7(ctx)
     r07_8(ctx)
+    r07_9(ctx)
     positive_example(ctx)
     ctx.floor("underlying_uses", 5)
     ctx.floor("positive_example_fired", 1)
@@ -380,7 +381,39 @@ def _init_outcomes(ctx, has):
     me, pname = init.param_names()[0], init.param_names()[1]
     ops = _BorrowOps(has, _module_constants(init.module))
     env = {me: "SELF", pname: "ITER"}
-    return init, Machine(cfg_of(init), ops, resolver=make_resolver(ctx, init, ops)).run(env)
+    try:
+        return init, Machine(cfg_of(init), ops, resolver=make_resolver(ctx, init, ops)).run(env)
+    except AnalysisError:
+        # (a loop the finite model cannot follow, e.g. a walk along a chain of wrappers: no outcome - the table reports it)
+        return init, []
+
+
+def r07_9(ctx) -> None:
+    """What a handle has disabled (asend / athrow after its close) and what it shields (the underlying iterator's aclose)
+    only holds as long as nobody reaches *through* the handle: the field that keeps the underlying iterator is read on the
+    handle's own ``self`` only - never on an iterator that was passed in (``it.__wrapped__`` of a borrowed argument)."""
+    ctx.rule("R07.9", "no library code looks through a borrowed handle: the field holding the underlying iterator is read on `self` "
+                      "only, never on an argument (re-borrowing binds to the handle it was given, scoped_iter scopes the handle it "
+                      "was given)")
+    info = ctx.pkg.cls(BORROW_CLASSES[0])
+    init = info.methods["__init__"]
+    me, pname = init.param_names()[0], init.param_names()[1]
+    fields = {t.attr for st in own_nodes(init.node) if isinstance(st, (ast.Assign, ast.AnnAssign))
+              for t in (st.targets if isinstance(st, ast.Assign) else [st.target])
+              if isinstance(t, ast.Attribute) and norm(t.value) == me and isinstance(getattr(st, "value", None), ast.Name)
+              and st.value.id == pname}
+    bad = 0
+    for u in real_units(ctx):
+        if u.module.short not in ("asynctools", "_core"):
+            continue
+        own = u.param_names()[0] if u.cls is not None and u.param_names() and not u.is_static() else None
+        for x in own_nodes(u.node):
+            if isinstance(x, ast.Attribute) and isinstance(x.ctx, ast.Load) and x.attr in fields and norm(x.value) != own:
+                bad += 1
+                ctx.fail("R07.9", u, x, f"`{norm(x)}` reads the underlying iterator out of a handle that was passed in: what is done "
+                         "with it bypasses the handle (its disabled asend / athrow, its no-op aclose)", line=x.lineno)
+    if not bad:
+        ctx.ok("R07.9", "asynctools", f"the field(s) {sorted(fields)} are read on self only")
 
 
 def r07_2(ctx) -> None:
